@@ -56,15 +56,14 @@ Proof. vm_compute. reflexivity. Qed.
 Example scope_excludes :
   in_scope_exports w_pattern_base (s_ "./foo") = false /\ in_scope_exports w_dup (s_ "./a") = false
   /\ in_scope_exports w_index (s_ "./a") = false
-  /\ in_scope_imports w_hash_slash (s_ "#/a") = false /\ in_scope_imports w_url_target (s_ "#fs") = false
-  /\ in_scope_imports w_imports_mixed (s_ "#a") = false.
+  /\ in_scope_imports w_hash_slash (s_ "#/a") = false /\ in_scope_imports w_url_target (s_ "#fs") = false.
 Proof. repeat split; vm_compute; reflexivity. Qed.
 (* ... and the witnesses of the repaired findings D2 / D4 are now inside the domain *)
 Example scope_includes_repaired :
   in_scope_exports w_upper (s_ "./x") = true /\ in_scope_exports w_pct (s_ "./x") = true
   /\ in_scope_exports w_star_all (s_ "./../secret.js") = true
   /\ in_scope_exports w_star_all (s_ "./node_modules/s.js") = true
-  /\ in_scope_exports w_mixed (s_ "./a") = true.
+  /\ in_scope_exports w_mixed (s_ "./a") = true /\ in_scope_imports w_imports_mixed (s_ "#a") = true.
 Proof. repeat split; vm_compute; reflexivity. Qed.
 
 (* keys with several "*" and empty-segment-free odd layouts are inside the domain *)
@@ -80,8 +79,6 @@ Example witness_shapes :
   (documented_ok w_pattern_base (s_ "./foo") && fragment_ok w_pattern_base (s_ "./foo")
    && negb (no_refuted_shape false w_pattern_base (s_ "./foo")) && shape_pattern_base (s_ "./foo") (s_ "./foo*")
    && documented_ok w_dup (s_ "./a") && fragment_ok w_dup (s_ "./a") && negb (no_refuted_shape false w_dup (s_ "./a"))
-   && documented_ok w_imports_mixed (s_ "#a") && fragment_ok w_imports_mixed (s_ "#a")
-   && negb (no_refuted_shape true w_imports_mixed (s_ "#a")) && shape_imports_top_mixed w_imports_mixed
    && documented_ok w_index (s_ "./a") && fragment_ok w_index (s_ "./a") && negb (no_refuted_shape false w_index (s_ "./a"))
    && documented_ok w_hash_slash (s_ "#/a") && fragment_ok w_hash_slash (s_ "#/a")
    && negb (no_refuted_shape true w_hash_slash (s_ "#/a")) && shape_hash_slash (s_ "#/a")
@@ -125,8 +122,7 @@ Example witness_object_shapes :
   (shape_dup_key [(s_ "./a", JStr (s_ "./x.js")); (s_ "./a", JStr (s_ "./y.js"))]
    && negb (shape_index_key [(s_ "./a", JStr (s_ "./x.js")); (s_ "./a", JStr (s_ "./y.js"))])
    && shape_index_key [(s_ "0", JStr (s_ "./x.js")); (s_ "default", JStr (s_ "./y.js"))]
-   && negb (shape_dup_key [(s_ "0", JStr (s_ "./x.js")); (s_ "default", JStr (s_ "./y.js"))])
-   && negb (shape_imports_top_mixed w_hash_slash)) = true.
+   && negb (shape_dup_key [(s_ "0", JStr (s_ "./x.js")); (s_ "default", JStr (s_ "./y.js"))])) = true.
 Proof. vm_compute. reflexivity. Qed.
 
 (* package_resolve_eq_partial: its hypotheses hold on the example tree for a bare specifier *)
